@@ -68,8 +68,10 @@ class C11(Prop):
         cfgs = adapter.configs()
         if adapter.name in TL_ENVS:
             if tier == "quick":
-                keep = [c for c in cfgs if c.get("clock") and c.get("tl") in (1, 3, None) and not c.get("long_default")]
-                dflt = [c for c in cfgs if c.get("quick") and not c.get("clock")][:1]
+                keep = [c for c in cfgs if c.get("clock") and c.get("tl") in (1, 2, 3, None) and not c.get("long_default")]
+                # the default limit on the default configuration and on the small one (a default that is clipped or derived
+                # from the instance size shows on the small instance only)
+                dflt = [c for c in cfgs if c.get("quick") and not c.get("clock")][:2]
                 return keep + dflt
             return cfgs
         if tier == "quick":
@@ -84,6 +86,10 @@ class C11(Prop):
         if tl is not None:
             w = swarm_weights(rng, ["SURVIVE", "SURVIVE", "LEGAL_UNIFORM", "MASK_UNIFORM", "UNIFORM_INSPEC"])
             w["SURVIVE"] = w.get("SURVIVE", 0) + 6.0
+            if rng.random() < 0.25:
+                # completion-driving play: the other documented cause (solved, target reached, all clean ...) can then fall
+                # on the very step of the time limit - the episode must still end there, not a step later
+                w = {"COMPLETE": 1.0}
             ill = float(rng.choice([0.0, 0.0, 0.05]))
             return Plan(w, illegal_rate=ill, max_steps=min(tl + 2, 4200), sticky=bool(rng.random() < 0.6))
         w = swarm_weights(rng, ["LEGAL_UNIFORM", "MASK_UNIFORM", "UNIFORM_INSPEC", "ILLEGAL_BIASED", "SURVIVE", "LEGAL_FIRST", "LEGAL_LAST"])
